@@ -935,7 +935,7 @@ func c15GridNamesCopies(p *core.Prog, eng *core.EffectsEngine, r *core.Rule) {
 // c15Snapshots: a computation that is stored to be run again later must not see state that keeps changing meanwhile.
 func c15Snapshots(c *core.Check, eng *core.EffectsEngine) {
 	p := c.Prog
-	r := c.Rule("R5", "re-evaluation closures take snapshots: every closure of type tree.ParseFunc (stored in the target collector and called again, in map iteration order, when a target or counter becomes known) captures slices and maps only as fresh copies made in the enclosing function — never a parameter or a re-slice of one, whose later changes (the running quote depth) would make the re-evaluation depend on when it runs", 5)
+	r := c.Rule("R5", "re-evaluation closures take snapshots: every closure of type tree.ParseFunc (stored in the target collector and called again, in map iteration order, when a target or counter becomes known) captures slices and maps only as fresh copies made in the enclosing function — never a parameter or a re-slice of one, whose later changes (the running quote depth) would make the re-evaluation depend on when it runs", 4)
 	n := 0
 	for _, fn := range p.ModFuncs {
 		fn := fn
